@@ -1,5 +1,5 @@
 (* Case runner and spec checker (T3) for C06. *)
-From WI Require Import Lib.Base Lib.Info Lib.Strings Lib.Time Model.Dispatch Model.Containers.
+From WI Require Import Lib.Base Lib.Info Lib.Strings Lib.Time Model.Dispatch Model.Containers Model.ContainersSsh.
 Open Scope N_scope.
 
 (* ---------- recorded library answers ---------- *)
@@ -88,9 +88,33 @@ Definition key_of_oracle (oracle : list arg) (key : bytes) : result keyinfo :=
   | None => Err "oracle-missing"
   end.
 
-(* the modelled line parsers (Model/Containers.v auth_line / hosts_line) *)
+(* elliptic.Unmarshal's verdict on (curve name, point), recorded by the harness beside the blob it comes from:
+   rows (blob obs (curve point ok)) *)
+Definition point_ok_of (blobs : list arg) (curve pt : bytes) : bool :=
+  existsb (fun row => match arg_nth 2 row with
+                      | AL [AB c; AB p; ok] => bytes_eqb c curve && bytes_eqb p pt && arg_bool ok
+                      | _ => false
+                      end) blobs.
+
+(* the key of a blob as the MODEL computes it from the bytes of the blob alone (Model/ContainersSsh.v key_of_model =
+   C02's model of ssh.ParsePublicKey + attribute builder); the recorded answer of the library is only the fallback
+   for the algorithms that model does not cover (sk-*, *-cert-v01, unknown names), and one bit for an EC point *)
+Definition key_of_tied (blobs : list arg) : bytes -> result keyinfo :=
+  key_of_model (point_ok_of blobs) (key_of_oracle blobs).
+
+Definition keyinfo_arg (k : keyinfo) : arg := AL [AB (fst k); AL (map (fun nv => AL [AB (fst nv); AB (snd nv)]) (snd k))].
+
+(* ... against the recorded answer of the library for every base64 field of the text *)
+Definition keys_agree (blobs : list arg) : bool :=
+  forallb (fun row => arg_eqb (obs_result keyinfo_arg (key_of_tied blobs (arg_bytes (arg_nth 0 row))))
+                              (match arg_nth 1 row with
+                               | AL [AZ 0%Z; AL [AB t; a]] => AL [AZ 0%Z; keyinfo_arg (t, attrs_of_arg a)]
+                               | o => o
+                               end)) blobs.
+
+(* the modelled line parsers (Model/Containers.v auth_line / hosts_line) over the modelled key parser *)
 Definition model_lib (hosts : bool) (blobs : list arg) : bytes -> result attrs :=
-  if hosts then ssh_hosts_lib (key_of_oracle blobs) else ssh_auth_lib (key_of_oracle blobs).
+  if hosts then ssh_hosts_lib (key_of_tied blobs) else ssh_auth_lib (key_of_tied blobs).
 
 (* ... against the library's answer for every chunk of the file *)
 Definition lib_agrees (lib : bytes -> result attrs) (oracle : list arg) : bool :=
@@ -100,8 +124,10 @@ Definition lib_agrees (lib : bytes -> result attrs) (oracle : list arg) : bool :
                                | o => o
                                end)) oracle.
 
-(* the files are computed with the modelled line parsers (fields split by the model, key blobs answered by the
-   recorded library); the recorded per-chunk answers of the library serve to compare the two (lib_agrees) *)
+(* the files are computed with the modelled line parsers over the modelled key parser (fields split by the model, key
+   blobs parsed and described by the model; recorded answers only for the algorithms outside C02's model); the recorded
+   per-chunk answers of the library serve to compare the line parsers (lib_agrees), the recorded per-blob answers to
+   compare the key parser on every base64 field of the text (keys_agree) *)
 Definition run_ssh (hosts : bool) (input : arg) : arg :=
   let data := arg_bytes (arg_nth 1 input) in
   let lib := model_lib hosts (arg_list (arg_nth 6 input)) in
@@ -109,12 +135,16 @@ Definition run_ssh (hosts : bool) (input : arg) : arg :=
   out3 mine (arg_list (arg_nth 3 input))
        [if hosts then bs "SSHKnownHosts" else bs "SSHAuthorizedKeys"]
        (render_ok_ssh (arg_nth 4 input) data && lib_hyp_ok lib (arg_nth 4 input)
-        && lib_agrees lib (arg_list (arg_nth 2 input))).
+        && lib_agrees lib (arg_list (arg_nth 2 input)) && keys_agree (arg_list (arg_nth 6 input))).
 
 (* one line through the modelled line parser *)
 Definition run_sshline (input : arg) : arg :=
   obs_result (fun a => AL (map (fun nv => AL [AB (fst nv); AB (snd nv)]) a))
              (model_lib (arg_bool (arg_nth 0 input)) (arg_list (arg_nth 2 input)) (arg_bytes (arg_nth 1 input))).
+
+(* one decoded key blob through the modelled key parser: input (blob blobs), blobs = the one row of that blob *)
+Definition run_keyblob (input : arg) : arg :=
+  obs_result keyinfo_arg (key_of_tied (arg_list (arg_nth 1 input)) (arg_bytes (arg_nth 0 input))).
 
 (* ---------- PEM ---------- *)
 Definition lastn {A} (k : nat) (l : list A) : list A := drop (length l - k) l.
@@ -251,6 +281,7 @@ Definition run_C06 (op : bytes) (input : arg) : arg :=
   if bytes_eqb op (bs "akeys") then run_ssh false input
   else if bytes_eqb op (bs "khosts") then run_ssh true input
   else if bytes_eqb op (bs "sshline") then run_sshline input
+  else if bytes_eqb op (bs "keyblob") then run_keyblob input
   else if bytes_eqb op (bs "pem") then run_pem input
   else if bytes_eqb op (bs "jks") then run_jks input
   else AL [].
